@@ -79,12 +79,13 @@ fn main() {
         "hash" => streams::cidl::hash_stream(seed, cases, args.iter().any(|a| a == "--exhaustive"), &mut ex),
         "procmsg" => streams::cidl::procmsg_stream(seed, cases, &mut ex),
         "proto" => streams::cidl::proto_stream(seed, cases, maxlen, &mut ex),
-        "sim" | "simfault" | "simlate" | "simproto" | "simchain" => {
+        "sim" | "simfault" | "simlate" | "simproto" | "simchain" | "simbig" => {
             let cfg = simrun::SimCfg {
                 max_nodes: arg(&args, "--nodes", 3),
                 keys: arg(&args, "--keys", 3),
                 actions: arg(&args, "--actions", 30),
-                faults: stream != "sim" && stream != "simproto" && stream != "simchain",
+                faults: stream != "sim" && stream != "simproto" && stream != "simchain" && stream != "simbig",
+                big: stream == "simbig",
                 chain: stream == "simchain",
                 late_ack: stream == "simlate",
                 prefixes: stream == "simproto",
